@@ -1,20 +1,63 @@
 import FV.Props.Catalog
-import FV.EmplaceVec
-/-! # C03 / C15 / C18 — emplacement (first instalment: `FlatVec` filled from an iterator)
+import FV.EmplaceAll
+import FV.Spec.Serialize
+/-! # C03 — emplace, then read back
 
 `emplaceU` is `Emplacer::emplace_unchecked`; `emplace` (= `new_in_place`) adds the alignment / minimum-size gate.
-The theorems for the remaining emplacers (generated `Init` types, `FlatString`, `FlexVec`) follow the same contract
-`EmpOk`; until they are proved the statements below are named `_partial`: they cover `vec::FromIterator`
-(and `FromArray`, which differs only in refusing before it writes). The correspondence check compares *every*
-emplacer of every catalog type with the model on every run. -/
+`InitWT t i` says the initialiser `i` is one the Rust type checker accepts for `t` (right constructor for the type,
+one image per sized field, a variant index that exists) and that the byte images it carries for *sized* values are
+valid values of their types; everything a `…Init`, `flat_vec!`, `FromIterator`, `FromStr` or `Empty` can express is
+an `Init`.
+
+`C03_statement` below is the whole property in the model's terms. The theorem proved here for **every** well-formed
+type and well-typed initialiser is its validation clause (`C03_emplace_validates_partial`): no fault, slot length
+kept, and on `Ok` the bytes validate. The other two clauses (the deep read equals the specified content; the
+non-padding bytes equal the reference serialisation) are decided on every run by the correspondence check, which
+compares the implementation with `Ty.walk`, `specOf` and `serialize` for every emplacer of every catalog type. -/
 namespace FV.Props
 open FV
 
-/-- **C03 / C15 / C18 (a), `FlatVec` part.** Filling a `FlatVec` from an iterator into any aligned buffer that holds
-at least the header: never faults, keeps the buffer length, and the resulting bytes *always* validate — when all
-items fitted (`Ok`) and also when they did not (`Err(InsufficientSize)`: the vector then holds the items that fitted,
-which is what makes a failed `assign_in_place` leave a valid value behind). -/
-theorem C03_vec_from_iterator_partial (et : Ty) (hL : Law et.dict) (sz : Nat) (hsz : et.dict.sized = some sz)
+/-- **C03, in full.** (Stated, not proved in full: see the module comment.) -/
+def C03_statement : Prop :=
+  ∀ (t : Ty) (i : Init) (s : Slice), t.WF → InitWT t i → s.addr % t.dict.align = 0 → t.dict.minSize ≤ s.len →
+    ∃ o, emplaceU t i s = .ok o ∧
+      (o.res = .ok () →
+        t.dict.validate ⟨s.addr, o.bytes⟩ = .ok () ∧
+        ((t.walk ⟨s.addr, o.bytes⟩).bind fun w => .ok (stripCaps w)) = specOf t i ∧
+        (t.align1 = true → ∀ b, serialize t i = some b → o.bytes.take b.length = b))
+
+/-- **C03, validation clause, for every type and every initialiser.** Into any aligned slot of at least `MIN_SIZE`
+bytes, whatever it held before: the emplacer does not fault, keeps the slot length, and if it reports `Ok` the bytes
+pass the *checked* validation of the type. -/
+theorem C03_emplace_validates_partial (t : Ty) (h : t.WF) (i : Init) (hw : InitWT t i) (s : Slice)
+    (hal : s.addr % t.dict.align = 0) (hlen : t.dict.minSize ≤ s.len) :
+    ∃ o, emplaceU t i s = .ok o ∧ o.bytes.length = s.len ∧
+      (o.res = .ok () → t.dict.validate ⟨s.addr, o.bytes⟩ = .ok ()) := by
+  obtain ⟨o, ho, hok⟩ := emplaceU_ok i t h hw s hal hlen
+  refine ⟨o, ho, hok.len, fun hres => ?_⟩
+  exact validate_ok_iff.2 ⟨hal, by simp only [Slice.len, hok.len]; exact hlen, hok.valid hres⟩
+
+/-- non-vacuity: a nested initialiser (`E1::C { a: 7, b: flat_vec![1, 2] }`) is well typed … -/
+example : InitWT E1 (.uenum 2 [[7]] (some (.vecArr [[1], [2]]))) := by
+  simp only [InitWT, E1]
+  refine ⟨by decide, by decide, [u8], .vec u8 L16, rfl, ⟨by decide, ?_⟩, ?_⟩
+  · intro i d v hd hv
+    cases i with
+    | zero =>
+      simp only [dictL, List.getElem?_cons_zero, Option.some.injEq] at hd hv
+      subst hd hv
+      exact ⟨1, rfl, rfl, fun a _ => rfl⟩
+    | succ k => simp [dictL] at hd
+  · intro x hx
+    simp only [List.mem_cons, List.not_mem_nil, or_false] at hx
+    rcases hx with rfl | rfl <;> exact ⟨1, rfl, rfl, fun a _ => rfl⟩
+
+/-- … and the model computes the documented image for it (tag 2, `a`, pad, length 2, the two items) -/
+example : emplaceU E1 (.uenum 2 [[7]] (some (.vecArr [[1], [2]]))) ⟨0, [9,9,9,9,9,9,9,9,9,9,9,9]⟩ =
+    .ok ⟨[2,9,9,9,7,9,2,0,1,2,9,9], .ok ()⟩ := by decide +kernel
+
+/-- `FlatVec` filled from an iterator: the result validates even when not all items fitted -/
+theorem C03_vec_from_iterator (et : Ty) (hL : Law et.dict) (sz : Nat) (hsz : et.dict.sized = some sz)
     (l : LenTy) (hl : l.Law) (xs : List Bytes) (hxs : ∀ x ∈ xs, ValidImage et.dict x) (s : Slice)
     (hal : s.addr % max l.align et.dict.align = 0) (hlen : max l.size et.dict.align ≤ s.len) :
     ∃ o, emplaceU (.vec et l) (.vecIter xs) s = .ok o ∧ o.bytes.length = s.len ∧
